@@ -217,7 +217,7 @@ pub fn run_sweep(ctx: &Ctx, rep: &mut Report) {
     // reference-mode ska lo under many hash seeds: (a) a triallelic SNP in unique sequence, (b) a reference with a
     // three-copy repeat and junction SNPs. All outputs must be identical whatever the hash seed or thread count.
     if !rep.capped {
-        for fam in ["triallelic", "three-copy repeat", "linked SNP pairs"] {
+        for fam in ["triallelic", "three-copy repeat", "linked SNP pairs", "tied indels"] {
             idx += 1;
             if !ctx.mine(idx) {
                 continue;
@@ -239,6 +239,27 @@ pub fn run_sweep(ctx: &Ctx, rep: &mut Report) {
                                 s[p + d] = comp(s[p + d]);
                             }
                         }
+                        vec![if i % 3 == 1 { rc_str(&s) } else { s }]
+                    })
+                    .collect();
+                (g, smp)
+            } else if fam == "tied indels" {
+                // insertions/deletions whose two alleles have exactly as many carriers each (3 v 3, and 2 v 2 with two
+                // samples lacking the locus is not possible here, so 3 v 3): which allele is REF must not depend on
+                // the order paths happen to be found in
+                let lens = [1usize, 2, 3, 5, 8];
+                let g = lo::ancestor(6 * k * (lens.len() + 1), k, ctx.seed + 96);
+                let smp = (0..n)
+                    .map(|i| {
+                        let mut s: Vec<u8> = Vec::new();
+                        let mut at = 0usize;
+                        for (j, l) in lens.iter().enumerate() {
+                            let p = 3 * k + j * 6 * k;
+                            s.extend_from_slice(&g[at..p]);
+                            // half of the samples lack the l bases at p; which half rotates with the locus
+                            at = if (i + j) % 2 == 0 { p + l } else { p };
+                        }
+                        s.extend_from_slice(&g[at..]);
                         vec![if i % 3 == 1 { rc_str(&s) } else { s }]
                     })
                     .collect();
@@ -284,6 +305,7 @@ pub fn run_sweep(ctx: &Ctx, rep: &mut Report) {
             // canonical output -> configurations; and per configuration the called positions / ALT strings
             let mut outs: std::collections::BTreeMap<String, Vec<(usize, u64)>> = std::collections::BTreeMap::new();
             let mut called: Vec<std::collections::BTreeMap<usize, String>> = Vec::new();
+            let mut indel_recs: Vec<std::collections::BTreeSet<String>> = Vec::new();
             let nseeds = if thorough { 24 } else { 8 };
             let mut ok = true;
             for hs in 0..nseeds {
@@ -292,7 +314,7 @@ pub fn run_sweep(ctx: &Ctx, rep: &mut Report) {
                     rep.nontrivial += 1;
                     match lo::run_lo(&dir, k, &samples, Some(&reference), &[], t, Some(ctx.seed + hs)) {
                         Ok(o) if o.code == 0 => {
-                            let canon = format!("{:?}|{:?}|{:?}", o.snp_seqs, o.snps_vcf, o.pseudo.as_ref().map(|p| &p.1));
+                            let canon = format!("{:?}|{:?}|{:?}|{}", o.snp_seqs, o.snps_vcf, o.pseudo.as_ref().map(|p| &p.1), o.indels_vcf);
                             outs.entry(canon).or_default().push((t, ctx.seed + hs));
                             let mut m = std::collections::BTreeMap::new();
                             for l in o.snps_vcf.unwrap_or_default().lines() {
@@ -304,6 +326,7 @@ pub fn run_sweep(ctx: &Ctx, rep: &mut Report) {
                                 }
                             }
                             called.push(m);
+                            indel_recs.push(o.indels_vcf.lines().filter(|l| !l.starts_with('#')).map(|l| l.split('\t').take(5).collect::<Vec<_>>().join(" ")).collect());
                         }
                         Ok(o) => {
                             ok = false;
@@ -321,9 +344,11 @@ pub fn run_sweep(ctx: &Ctx, rep: &mut Report) {
                 let unstable_pos: Vec<usize> = all.iter().copied().filter(|p| !called.iter().all(|m| m.contains_key(p))).collect();
                 let unstable_alt: Vec<usize> = all.iter().copied().filter(|p| called.iter().filter_map(|m| m.get(p)).collect::<std::collections::BTreeSet<_>>().len() > 1).collect();
                 let groups: Vec<String> = outs.values().map(|v| format!("{v:?}")).collect();
+                let all_ind: std::collections::BTreeSet<&String> = indel_recs.iter().flatten().collect();
+                let unstable_indels: Vec<String> = all_ind.iter().filter(|r| !indel_recs.iter().all(|s| s.contains(**r))).map(|r| r.chars().take(60).collect()).take(6).collect();
                 rep.violate(
-                    format!("lo-ref {fam} family: positions called in some runs only {unstable_pos:?}; positions whose ALT order varies {unstable_alt:?}"),
-                    format!("ska lo -r ({fam} family) gives {} different results depending on (threads, hash seed): positions called in some runs only {unstable_pos:?}, positions whose ALT field varies {unstable_alt:?}; groups {}", outs.len(), groups.join(" vs ")),
+                    format!("lo-ref {fam} family: positions called in some runs only {unstable_pos:?}; positions whose ALT order varies {unstable_alt:?}; indel records in some runs only: {}", unstable_indels.len()),
+                    format!("ska lo -r ({fam} family) gives {} different results depending on (threads, hash seed): positions called in some runs only {unstable_pos:?}, positions whose ALT field varies {unstable_alt:?}, indel records (CHROM POS ID REF ALT) written in some runs only {unstable_indels:?}; groups {}", outs.len(), groups.join(" vs ")),
                     json!({"cmd": "LoRefSeeds", "family": fam, "unstable_positions": unstable_pos, "unstable_alt": unstable_alt, "groups": groups}),
                 );
             }
